@@ -33,7 +33,13 @@ void tree_case(size_t n) {
     auto s = mkspline<o>(grid, ws.first, ws.second, "s");
     for (auto wv : (E::uses_factor ? windows(n) : one)) {
       auto v = mkspline<fo>(grid, wv.first, wv.second, "v");
-      auto op = E::make(c, v);
+      // the operator is built from NAMED scalar and spline objects which are overwritten before it is applied: an operator is a value,
+      // it must act with the operands it was built from
+      Real cvar = c;
+      auto vvar = v;
+      auto op = E::make(cvar, vvar);
+      cvar = cvar + Real(1);
+      vvar = vvar * Real(2);
       auto r = op * s;
       std::string k = "ws" + W(ws) + (E::uses_factor ? "/wv" + W(wv) : std::string()) + "/";
       if (!shape_ok(r, n)) En.fail(k + "shape", "structure", "result shape inconsistent");
